@@ -44,6 +44,13 @@ func Catalogue(syntax string) []Dev {
 		l := l
 		add("f1.label", "'"+l+"'", func(ws *WS) { F(ws, "f1").Label = l })
 	}
+	if syntax == "proto3" {
+		// proto3 optional fields whose synthetic oneof names collide with field names and with each other
+		add("f1.label", "optional-underscore-pair", func(ws *WS) {
+			F(ws, "f1").Label, F(ws, "f1").Name = "optional", "foo"
+			M(ws).Body = append(M(ws).Body, f("optional", "int32", "_foo", 8), f("optional", "int32", "X_foo", 9))
+		})
+	}
 	for _, t := range ScalarNames {
 		if t == "int32" {
 			continue
@@ -55,12 +62,12 @@ func Catalogue(syntax string) []Dev {
 		n := n
 		add("f1.number", fmt.Sprint(n), func(ws *WS) { F(ws, "f1").Number = n })
 	}
-	for _, n := range []string{"f2", "F2", "f_2", "f_3", "Inner", "ME0", "M", "i", "x1"} {
+	for _, n := range []string{"f2", "F2", "f_2", "f_3", "Inner", "ME0", "M", "i", "x1", "_f1", "_f2", "__", "_"} {
 		n := n
 		add("f1.name", n, func(ws *WS) { F(ws, "f1").Name = n })
 	}
 	for _, o := range []Option{{"default", "5"}, {"default", "\"x\""}, {"default", "2147483648"}, {"default", "-2147483648"}, {"default", "-2147483649"}, {"default", "0x10"}, {"default", "true"},
-		{"json_name", "\"j\""}, {"json_name", "\"f2\""}, {"json_name", "\"[j]\""}, {"json_name", "1"}, {"packed", "true"}, {"deprecated", "true"}, {"deprecated", "1"}, {"lazy", "true"}, {"ctype", "CORD"}, {"ctype", "NOPE"}} {
+		{"json_name", "\"j\""}, {"json_name", "\"f2\""}, {"json_name", "\"[j]\""}, {"json_name", "1"}, {"packed", "true"}, {"packed", "false"}, {"deprecated", "true"}, {"deprecated", "1"}, {"lazy", "true"}, {"ctype", "CORD"}, {"ctype", "NOPE"}} {
 		o := o
 		add("f1.opts", o.Name+":"+o.Value, func(ws *WS) { F(ws, "f1").Opts = append(F(ws, "f1").Opts, o) })
 	}
@@ -123,6 +130,8 @@ func Catalogue(syntax string) []Dev {
 	}
 	add("f3.label", "repeated", func(ws *WS) { F(ws, "f3").Label = "repeated" })
 	add("f3.label", "repeated-packed", func(ws *WS) { F(ws, "f3").Label = "repeated"; F(ws, "f3").Opts = []Option{{"packed", "true"}} })
+	add("f3.label", "repeated-packed-false", func(ws *WS) { F(ws, "f3").Label = "repeated"; F(ws, "f3").Opts = []Option{{"packed", "false"}} })
+	add("f1.label", "repeated-packed-false", func(ws *WS) { F(ws, "f1").Label = "repeated"; F(ws, "f1").Opts = []Option{{"packed", "false"}} })
 	// extra map field
 	keys := append(append([]string(nil), ScalarNames...), "E", "D", "ME")
 	for _, k := range keys {
@@ -291,6 +300,19 @@ func Catalogue(syntax string) []Dev {
 	add("imports", "dep-twice", func(ws *WS) { ws.Main().Imports = append(ws.Main().Imports, Import{"dep.proto", ""}) })
 	add("imports", "none", func(ws *WS) { ws.Main().Imports = nil })
 	add("imports", "only-pub", func(ws *WS) { ws.Main().Imports = []Import{{"pub.proto", ""}} })
+	// modifiers in every order (the public and the weak import lists are indexed separately)
+	add("imports", "public-then-weak-pub", func(ws *WS) {
+		ws.Main().Imports[0].Kind = "public"
+		ws.Main().Imports = append(ws.Main().Imports, Import{"pub.proto", "weak"})
+	})
+	add("imports", "weak-then-public-pub", func(ws *WS) {
+		ws.Main().Imports[0].Kind = "weak"
+		ws.Main().Imports = append(ws.Main().Imports, Import{"pub.proto", "public"})
+	})
+	add("imports", "plain-pub-first-then-public", func(ws *WS) {
+		ws.Main().Imports = append([]Import{{"pub.proto", ""}}, ws.Main().Imports...)
+		ws.Main().Imports[1].Kind = "public"
+	})
 	add("imports", "self", func(ws *WS) { ws.Main().Imports = append(ws.Main().Imports, Import{"main.proto", ""}) })
 	add("dep.imports", "pub-not-public", func(ws *WS) { ws.File("dep.proto").Imports[0].Kind = "" })
 	// package of main
